@@ -13,10 +13,12 @@ type Builder struct {
 	nfa *nfa.NFA
 
 	// Working state for DFS during one-pass check
-	seen      *sparse.SparseSet // visited NFA states during epsilon closure
-	stack     []stackEntry      // DFS stack
-	matched   bool              // true if we've reached a match state in current closure
-	matchMask uint32            // slot mask accumulated to reach match state
+	seen  *sparse.SparseSet // visited NFA states during epsilon closure
+	stack []stackEntry      // DFS stack
+	// startHasLook: the closure of the start state passes a start-of-text/line assertion
+	startHasLook bool
+	matched      bool   // true if we've reached a match state in current closure
+	matchMask    uint32 // slot mask accumulated to reach match state
 
 	// DFA state being built
 	numStates  int                     // number of DFA states created
@@ -76,6 +78,16 @@ func Build(n *nfa.NFA) (*DFA, error) {
 	startDFA, err := b.buildState(startNFA)
 	if err != nil {
 		return nil, err
+	}
+
+	// The start state's closure assumed position 0 for a start assertion: no
+	// transition may lead back to it.
+	if b.startHasLook {
+		for _, tr := range b.table {
+			if !tr.IsDead() && tr.NextState() == startDFA {
+				return nil, ErrNotOnePass
+			}
+		}
 	}
 
 	// Create DFA
@@ -200,11 +212,13 @@ func (b *Builder) epsilonClosureOnePass(root nfa.StateID) ([]closureEntry, bool,
 
 		case nfa.StateSplit:
 			// Follow both epsilon paths
+			// Push right first: the stack is LIFO, so the preferred (left) branch is
+			// explored first and the closure is listed in priority order.
 			left, right := state.Split()
-			if err := b.stackPush(left, slots); err != nil {
+			if err := b.stackPush(right, slots); err != nil {
 				return nil, false, err
 			}
-			if err := b.stackPush(right, slots); err != nil {
+			if err := b.stackPush(left, slots); err != nil {
 				return nil, false, err
 			}
 
@@ -234,11 +248,27 @@ func (b *Builder) epsilonClosureOnePass(root nfa.StateID) ([]closureEntry, bool,
 			}
 
 		case nfa.StateLook:
-			// Handle anchors (^, $, \A, \z) as epsilon transitions.
-			// For onepass DFA (which is always anchored at start):
-			// - Start anchors (^, \A): Always satisfied - follow epsilon
-			// - End anchors ($, \z): Follow epsilon; match checked at input end
-			_, next := state.Look()
+			// An assertion can only be treated as an epsilon transition where it is
+			// known to hold. Search accepts a match at the end of the input only, so an
+			// end-of-text assertion that leads straight to Match holds there; a
+			// start-of-text/line assertion holds at position 0, i.e. in the closure of
+			// the start state (Build rejects a DFA that re-enters that state). Word
+			// boundaries, multiline `$` and anchors elsewhere depend on the input:
+			// such a pattern is not handled by this one-pass DFA.
+			look, next := state.Look()
+			switch look {
+			case nfa.LookStartText, nfa.LookStartLine:
+				if root != b.nfa.StartAnchored() {
+					return nil, false, ErrNotOnePass
+				}
+				b.startHasLook = true
+			case nfa.LookEndText:
+				if !b.leadsOnlyToMatch(next) {
+					return nil, false, ErrNotOnePass
+				}
+			default:
+				return nil, false, ErrNotOnePass
+			}
 			if next != nfa.InvalidState {
 				if err := b.stackPush(next, slots); err != nil {
 					return nil, false, err
@@ -251,6 +281,28 @@ func (b *Builder) epsilonClosureOnePass(root nfa.StateID) ([]closureEntry, bool,
 	}
 
 	return closure, b.matched, nil
+}
+
+// leadsOnlyToMatch reports whether every path from id reaches Match through captures
+// and epsilons only (no byte transition, no split, no further assertion).
+func (b *Builder) leadsOnlyToMatch(id nfa.StateID) bool {
+	for steps := 0; steps <= b.nfa.States(); steps++ {
+		state := b.nfa.State(id)
+		if state == nil {
+			return false
+		}
+		switch state.Kind() {
+		case nfa.StateMatch:
+			return true
+		case nfa.StateEpsilon:
+			id = state.Epsilon()
+		case nfa.StateCapture:
+			_, _, id = state.Capture()
+		default:
+			return false
+		}
+	}
+	return false
 }
 
 // stackPush adds an NFA state to the DFS stack.
@@ -290,6 +342,14 @@ func (b *Builder) buildTransitions(tableIdx int, closure []closureEntry) error {
 		state := b.nfa.State(entry.nfaID)
 		if state == nil {
 			continue
+		}
+
+		// The closure is in priority order: once Match is reached, leftmost-first
+		// semantics stop here, so the lower-priority byte transitions after it do not
+		// exist (`(|a)` matches the empty string on "a"; Search then sees a dead
+		// state on further input and the caller falls back to the general engines).
+		if state.Kind() == nfa.StateMatch {
+			break
 		}
 
 		switch state.Kind() {
